@@ -25,6 +25,9 @@ def run(ctx):
     ctx.rule("R07.3", "release = rename-to-unique then unlink, OSError->RuntimeError; released on "
              "all exits of get_lock_file; BaseException arm of acquire releases; lock classes agree")
     J.rule_release(ctx, "R07.3")
+    ctx.rule("R07.6", "forced take-over: only after this waiter watched the same lock unchanged for a grace period on its "
+             "monotonic clock (restart on mtime change, stat every iteration); removal bound to the observed lock")
+    J.rule_takeover(ctx, "R07.6")
     ctx.rule("R07.4", "read_logs accepts a record only under the newline / size-snapshot / "
              "no-pending-error guards (per-iteration dominance)")
     ctx.rule("R07.5", "offset cache: offset[n+1] = offset[n] + len(line); rejected line drops its "
